@@ -16,6 +16,7 @@ import (
 	"github.com/gr33nbl00d/caddy-revocation-validator/core/utils"
 	"github.com/gr33nbl00d/caddy-revocation-validator/crl/crlreader/extensionsupport"
 	asn1crypto "golang.org/x/crypto/cryptobyte/asn1"
+	"math"
 	"math/big"
 	"os"
 	"time"
@@ -94,6 +95,11 @@ func (StreamingCRLFileReader) ReadCRL(crlProcessor CRLProcessor, crlFilePath str
 	if err != nil {
 		return nil, err
 	}
+	//optional fields at the end of tbsCertList are only present if tbsCertList has not ended yet
+	tbsCertListEnd, err := calculateEndPosition(reader, tbsCertListTL)
+	if err != nil {
+		return nil, err
+	}
 	version := 1
 	if versionExists(reader) {
 		version, err = parseVersion(reader, version)
@@ -132,7 +138,7 @@ func (StreamingCRLFileReader) ReadCRL(crlProcessor CRLProcessor, crlFilePath str
 	if err != nil {
 		return nil, err
 	}
-	if revokedCertificateListExists(reader) {
+	if reader.Position() < tbsCertListEnd && revokedCertificateListExists(reader) {
 		err := parseRevokedCertificateList(issuer, reader, crlProcessor)
 		if err != nil {
 			return nil, err
@@ -140,7 +146,7 @@ func (StreamingCRLFileReader) ReadCRL(crlProcessor CRLProcessor, crlFilePath str
 	}
 	var crlExtensions *[]pkix.Extension = nil
 	var crlNumber *big.Int = nil
-	if extensionsExists(reader, version) {
+	if reader.Position() < tbsCertListEnd && extensionsExists(reader, version) {
 		crlExtensions, err = parseExtensions(reader)
 		if err != nil {
 			return nil, err
@@ -259,15 +265,12 @@ func parseRevokedCertificateList(issuer *pkix.RDNSequence, reader hashing.Hashin
 	if err != nil {
 		return err
 	}
-	for {
-		revokedCertSeq, err := asn1parser.PeekTagLength(&reader, 0)
-		if err != nil {
-			return err
-		}
-
-		if revokedCertSeq.Tag != asn1crypto.SEQUENCE {
-			break
-		}
+	//the list ends where its length says, what follows may be a sequence as well (signature algorithm)
+	revokedCertListEnd, err := calculateEndPosition(reader, revokedCertListTag)
+	if err != nil {
+		return err
+	}
+	for reader.Position() < revokedCertListEnd {
 		revokedCert := new(pkix.RevokedCertificate)
 		err = asn1parser.ReadStruct(&reader, revokedCert)
 		if err != nil {
@@ -282,6 +285,14 @@ func parseRevokedCertificateList(issuer *pkix.RDNSequence, reader hashing.Hashin
 		}
 	}
 	return nil
+}
+
+func calculateEndPosition(reader hashing.HashingReaderWrapper, tagLength *asn1parser.TagLength) (int64, error) {
+	length := &tagLength.Length.Length
+	if !length.IsInt64() || length.Int64() > math.MaxInt64-reader.Position() {
+		return 0, fmt.Errorf("length of tag is too large: %s", length)
+	}
+	return reader.Position() + length.Int64(), nil
 }
 
 func revokedCertificateListExists(reader hashing.HashingReaderWrapper) bool {
@@ -331,19 +342,12 @@ func readAlgorithmIdentifier(reader asn1parser.Asn1Reader) (*pkix.AlgorithmIdent
 }
 
 func newHashingDERCRLReader(crlFile *os.File) hashing.HashingReaderWrapper {
-	var reader = hashing.HashingReaderWrapper{
-		Reader: bufio.NewReader(crlFile),
-	}
-	return reader
+	return hashing.NewHashingReaderWrapper(bufio.NewReader(crlFile))
 }
 
 func newHashingPEMCRLReader(crlFile *os.File) hashing.HashingReaderWrapper {
 	pemReader := pemreader.NewPemReader(bufio.NewReader(crlFile))
 	decoder := base64.NewDecoder(base64.StdEncoding, &pemReader)
 
-	var reader = hashing.HashingReaderWrapper{
-		Reader: bufio.NewReader(decoder),
-	}
-	return reader
-
+	return hashing.NewHashingReaderWrapper(bufio.NewReader(decoder))
 }
